@@ -3,7 +3,7 @@ From Coq Require Import List NArith Bool Arith Lia Sorting.Sorted.
 From Storage Require Import Base.Bytes Cursor.StrOrder Cursor.Core Cursor.CoreProofs Cursor.BoltCursor
   Cursor.BoltCursorProofs Cursor.Typed Cursor.TypedProofs Cursor.Filtered Cursor.FilteredProofs
   Cursor.Union Cursor.UnionProofs Cursor.Tree Cursor.TreeProofs Cursor.SetSym Cursor.SetSymProofs
-  Cursor.Cases Cursor.CasesProofs.
+  Cursor.Cases Cursor.CasesProofs Cursor.Scanner Cursor.ScannerProofs.
 Import ListNotations.
 Open Scope nat_scope.
 
@@ -199,3 +199,35 @@ Qed.
 Lemma setsym_raw_seek_lemma : forall tag keys v s,
   ss_seek_raw keys (prepend_field_type tag v) s = k_seek (setsym_cursor tag keys) v s.
 Proof. reflexivity. Qed.
+
+(* ---- scanners layered over cursors (Cursor/Scanner.v) ---------------------------------------------------- *)
+
+Lemma lookahead_scanner_lemma : forall St (W : kcursor St) R fw L present matches fuel w0,
+  ksim W (dir_leb fw) L R -> nonnil (plain W) R -> sorted_dir fw L -> length L <= fuel -> R w0 L ->
+  forall ops,
+  krun (scanner_cursor St W present matches fuel 0 None) (sc_open St W present matches fuel 0 None w0) ops =
+  spec_run (dir_leb fw) (filter (accept_of present matches) L) ops.
+Proof.
+  intros St W R fw L present matches fuel w0 HK HN Hs Hl HR ops.
+  rewrite spec_run_rspec. apply scanner_run_spec with (R := R); try assumption.
+  intro v. apply sorted_closed_up. exact Hs.
+Qed.
+
+Lemma ids_props : forall present matches fuel ids,
+  sorted_asc (bucket_elems ids) -> length (bucket_elems ids) <= fuel ->
+  seekable_props (ids_run present matches fuel 0 None ids) true (filter (accept_of present matches) (bucket_elems ids)).
+Proof. intros present matches fuel ids Hs Hl. apply seekable_of_rspec. intro ops. apply ids_run_spec; assumption. Qed.
+
+Lemma valid_ids_props : forall present matches ext fuel ids,
+  sorted_asc (bucket_elems ids) -> length (bucket_elems ids) <= fuel ->
+  seekable_props (valid_ids_run present matches ext fuel ids) true
+                 (filter ext (filter (accept_of present matches) (bucket_elems ids))).
+Proof. intros present matches ext fuel ids Hs Hl. apply seekable_of_rspec. intro ops. apply valid_ids_run_spec; assumption. Qed.
+
+Lemma ids_paged_props : forall present matches fuel off lim ids, length (bucket_elems ids) <= fuel ->
+  nextonly_props (fun n => ids_run present matches fuel off lim ids (repeat CNext n))
+                 (page off lim (filter (accept_of present matches) (bucket_elems ids))).
+Proof.
+  intros present matches fuel off lim ids Hl. apply nextonly_of_rspec. intros leb n.
+  apply ids_paged_run_spec. exact Hl.
+Qed.
